@@ -47,13 +47,19 @@ From SB3V Require Import Model.Script Model.VecEnv Model.Wrappers.
 Import ListNotations.
 """
 
-F32, U8 = "f32", "u8"
+F32, U8, U8B = "f32", "u8", "u8b"     # u8b: uint8 with bounds [0, 250] - NOT an image space (images need bounds exactly [0, 255])
 # base spaces: Box -> {"0": (shape, dtype)}; Dict -> {key: (shape, dtype)}
 BASES = {
     "box1": ("box", {"0": ((3,), F32)}),
     "box2": ("box", {"0": ((2, 3), F32)}),
     "box3": ("box", {"0": ((2, 1, 2), F32)}),
     "box4": ("box", {"0": ((2, 1, 2, 2), F32)}),      # rank 4 (and, stacked, still rank 4): "Box of any rank"
+    # rank-3 spaces that are NOT images although they look like one: float with the smallest axis first / last, uint8 with other bounds.
+    # channels_order=None must stack them on the LAST axis and VecTransposeImage must refuse them
+    "f3_first": ("box", {"0": ((2, 5, 6), F32)}),
+    "f3_last": ("box", {"0": ((5, 6, 2), F32)}),
+    "u8b_first": ("box", {"0": ((2, 4, 5), U8B)}),
+    "dict_f3": ("dict", {"cam": ((2, 4, 5), F32), "pix": ((3, 4, 4), U8), "odd": ((1, 4, 5), U8B)}),
     "img_hwc1": ("box", {"0": ((4, 5, 1), U8)}),
     "img_hwc3": ("box", {"0": ((4, 4, 3), U8)}),
     "img_chw": ("box", {"0": ((3, 4, 4), U8)}),
@@ -166,6 +172,8 @@ def make_space(base):
     kind, leaves = BASES[base]
 
     def leaf(s, d):
+        if d == U8B:
+            return spaces.Box(0, 250, s, dtype=np.uint8)
         return spaces.Box(0, 255, s, dtype=np.uint8) if d == U8 else spaces.Box(-1e5, 1e5, s, dtype=np.float32)
 
     if kind == "box":
@@ -332,8 +340,8 @@ def oracle(case, impl, ops=None):
     def base_obs(tag):
         if kind == "box":
             s, d = leaves["0"]
-            return np.full(s, tag, dtype=np.uint8 if d == U8 else np.float32)
-        return {k: np.full(s, tag, dtype=np.uint8 if d == U8 else np.float32) for k, (s, d) in leaves.items()}
+            return np.full(s, tag, dtype=np.float32 if d == F32 else np.uint8)
+        return {k: np.full(s, tag, dtype=np.float32 if d == F32 else np.uint8) for k, (s, d) in leaves.items()}
 
     def stacked(frames, n, cf):
         fr = frames[-n:]
@@ -757,7 +765,7 @@ def main():
     chk.coverage["traces_validated_against_impl"] = len(cases) + sync_stats.get("sync", 0) + sync_stats.get("unwrap", 0)
     chk.coverage["distinct_nontrivial"] = len(distinct)
     chk.coverage["rule"] = ("random type-correct wrapper stacks (depth 1-4; VecFrameStack n_stack 1-5 with channels_order None/first/last or per key, VecTransposeImage incl. skip, "
-                            "VecExtractDictObs, VecMonitor, VecCheckNan) over DummyVecEnv (n_envs 1-3) of scripted envs cycling through 10 base spaces (Box rank 1-4, HWC/CHW images, 3 Dict "
+                            "VecExtractDictObs, VecMonitor, VecCheckNan) over DummyVecEnv (n_envs 1-3) of scripted envs cycling through 14 base spaces (Box rank 1-4, rank-3 float / non-[0,255] uint8 boxes that are not images, HWC/CHW images, 3 Dict "
                             "mixes), 9-23 ops with random extra resets; every cell of every observation and terminal observation compared; non-trivial = a frame stack deeper than 1 "
                             "AND an episode end AND (a second wrapper OR an episode shorter than the stack depth); distinct = distinct (base, stack, scripts, ops)")
     chk.notes["input_distribution"] = hist
